@@ -176,10 +176,77 @@ func And(xs ...*Term) *Term {
 			out = append(out, x)
 		}
 	}
+	// eq(x, c1) and eq(x, c2) with different constants contradict (scheduler variables!)
+	var eqConst map[int]uint64
+	for _, x := range out {
+		if x.op == OpEq && x.args[0].w != 0 {
+			var v, k *Term
+			if x.args[1].IsConst() {
+				v, k = x.args[0], x.args[1]
+			} else if x.args[0].IsConst() {
+				v, k = x.args[1], x.args[0]
+			}
+			if v != nil {
+				if eqConst == nil {
+					eqConst = map[int]uint64{}
+				}
+				if old, ok := eqConst[v.id]; ok && old != k.val {
+					return TS.False
+				}
+				eqConst[v.id] = k.val
+			}
+		}
+	}
 	changed := false
 	for i, x := range out {
 		if x.op == OpNot && seen[x.args[0].id] {
 			return TS.False
+		}
+		if eqConst != nil && x.op == OpNot && x.args[0].op == OpEq && x.args[0].args[0].w != 0 {
+			// not(eq(x, c2)) is redundant next to eq(x, c1), c1 != c2
+			y := x.args[0]
+			var v, k *Term
+			if y.args[1].IsConst() {
+				v, k = y.args[0], y.args[1]
+			} else if y.args[0].IsConst() {
+				v, k = y.args[1], y.args[0]
+			}
+			if v != nil {
+				if c1, ok := eqConst[v.id]; ok && c1 != k.val {
+					out[i] = TS.True
+					changed = true
+					continue
+				}
+			}
+		}
+		// not(and(ys)) where some y contradicts an eq(x, c) conjunct: the inner and is false, drop
+		if eqConst != nil && x.op == OpNot && x.args[0].op == OpAnd {
+			dead := false
+			for _, y := range x.args[0].args {
+				if y.op == OpEq && y.args[0].w != 0 {
+					var v, k *Term
+					if y.args[1].IsConst() {
+						v, k = y.args[0], y.args[1]
+					} else if y.args[0].IsConst() {
+						v, k = y.args[1], y.args[0]
+					}
+					if v != nil {
+						if c1, ok := eqConst[v.id]; ok && c1 != k.val {
+							dead = true
+							break
+						}
+					}
+				}
+				if y.op == OpNot && seen[y.args[0].id] {
+					dead = true
+					break
+				}
+			}
+			if dead {
+				out[i] = TS.True
+				changed = true
+				continue
+			}
 		}
 		// not(and(ys)) with every y among the conjuncts: contradiction
 		if x.op == OpNot && x.args[0].op == OpAnd {
@@ -388,6 +455,13 @@ func Eq(a, b *Term) *Term {
 	}
 	if a.IsConst() && b.IsConst() {
 		return BoolT(a.val == b.val)
+	}
+	if a.w != 0 && (a.IsConst() || b.IsConst()) {
+		if alo, ahi, ok := interval(a); ok {
+			if blo, bhi, ok := interval(b); ok && (ahi < blo || bhi < alo) {
+				return TS.False
+			}
+		}
 	}
 	if a.w == 0 {
 		if a.IsTrue() {
@@ -602,6 +676,28 @@ func cmpBV(op Op, a, b *Term) *Term {
 	}
 	if a == b {
 		return BoolT(op == OpUle || op == OpSle)
+	}
+	// interval reasoning for small counter-like terms (ite / +const over constants)
+	if alo, ahi, ok := interval(a); ok {
+		if blo, bhi, ok := interval(b); ok {
+			nonneg := alo >= 0 && blo >= 0
+			if op == OpSlt || (op == OpUlt && nonneg) {
+				if ahi < blo {
+					return TS.True
+				}
+				if alo >= bhi {
+					return TS.False
+				}
+			}
+			if op == OpSle || (op == OpUle && nonneg) {
+				if ahi <= blo {
+					return TS.True
+				}
+				if alo > bhi {
+					return TS.False
+				}
+			}
+		}
 	}
 	if b.IsConst() && a.op == OpIte && (a.args[1].IsConst() || a.args[2].IsConst()) {
 		return Ite(a.args[0], cmpBV(op, a.args[1], b), cmpBV(op, a.args[2], b))
@@ -944,3 +1040,77 @@ func (t *Term) str(sb *strings.Builder, d int) {
 }
 
 var orFactor = false
+
+// interval computes a signed interval for terms built from constants, ite and +/- constants
+// (memoised; unknown for anything else). Values are interpreted as signed numbers of the term's width
+// and the analysis gives up on anything that could wrap.
+type ivl struct {
+	lo, hi int64
+	ok     bool
+}
+
+var ivlMemo = map[int]ivl{}
+
+func interval(t *Term) (int64, int64, bool) {
+	if t.w == 0 {
+		return 0, 0, false
+	}
+	if v, ok := ivlMemo[t.id]; ok {
+		return v.lo, v.hi, v.ok
+	}
+	r := interval1(t)
+	ivlMemo[t.id] = r
+	return r.lo, r.hi, r.ok
+}
+
+func interval1(t *Term) ivl {
+	const lim = int64(1) << 40
+	switch t.op {
+	case OpConst:
+		v := signExt(t.val, t.w)
+		if v > lim || v < -lim {
+			return ivl{}
+		}
+		return ivl{v, v, true}
+	case OpIte:
+		al, ah, ok1 := interval(t.args[1])
+		bl, bh, ok2 := interval(t.args[2])
+		if !ok1 || !ok2 {
+			return ivl{}
+		}
+		if bl < al {
+			al = bl
+		}
+		if bh > ah {
+			ah = bh
+		}
+		return ivl{al, ah, true}
+	case OpAdd:
+		al, ah, ok1 := interval(t.args[0])
+		bl, bh, ok2 := interval(t.args[1])
+		if !ok1 || !ok2 {
+			return ivl{}
+		}
+		lo, hi := al+bl, ah+bh
+		if t.w < 63 {
+			max := int64(1)<<uint(t.w-1) - 1
+			if hi > max || lo < -max-1 {
+				return ivl{}
+			}
+		}
+		return ivl{lo, hi, true}
+	case OpZext:
+		al, ah, ok := interval(t.args[0])
+		if !ok || al < 0 {
+			return ivl{}
+		}
+		return ivl{al, ah, true}
+	case OpSext:
+		al, ah, ok := interval(t.args[0])
+		if !ok {
+			return ivl{}
+		}
+		return ivl{al, ah, true}
+	}
+	return ivl{}
+}
